@@ -108,7 +108,14 @@ def worker(ctx):
         cfg = cfg_for(rng, case_id)
         if case_id % 4 == 2:
             cfg.p_same_short_name = 0.6
+        cfg.keyword_field = 0.15   # `type`: a keyword of the schema language that the grammar allows as a field name
         root = gen.gen_schema(rng, cfg)
+        if case_id % 5 == 2:
+            # `match`: a soft keyword of Python, an ordinary identifier in C and Go - a field name like any other
+            for mm in [mm for g_ in root.all_files() for mm in messages_of(g_)]:
+                if mm.fields and "match" not in {f.name for f in mm.fields} and rng.random() < 0.5:
+                    rng.choice(mm.fields).name = "match"
+                    res.count("fields_named_match")
         if case_id % 6 == 1:
             gen.add_same_name_shapes(root, rng, ext_ok=cfg.extensible)
         top = ctx.casedir(case_id)
